@@ -521,7 +521,9 @@ def big_batches(ctx: Ctx) -> None:
     for kind in ("mem", "sqlite"):
         app = make_app(kind, ctx.tmp, app_id=f"c08big{kind}")
         b = app.broker
-        for n in sizes:
+        # backlogs beyond every power of two up to 2^17 (a bounded container evicts silently): in memory always, SQLite up to 2^16 + 7 in the thorough tier
+        huge = [(1 << 16) + 7, (1 << 17) + 3] if kind == "mem" else ([] if ctx.quick else [(1 << 16) + 7])
+        for n in sizes + huge:
             b.purge()
             b.route_invocation("waiting-first")
             ids = [f"m{j % max(n - 3, 1)}" if j % 97 == 0 else f"i{j}" for j in range(n)]     # a few repeated ids
@@ -596,6 +598,52 @@ def interrupted_operations(ctx: Ctx) -> None:
                                    {"kind": "interrupt", "backend": "sqlite", "operation": opname, "exception": exc.__name__, "after_statement": k, "statements_seen": nstat})
     finally:
         SQLiteConnection.execute = real_execute  # type: ignore[method-assign]
+    # a COMMIT that SQLite refuses (SQLITE_BUSY: "database is locked" - a reader of another process holds its lock past the busy timeout):
+    # nothing is committed, the statement's transaction stays open.  A call that raises must have added / consumed nothing; a call that
+    # RETURNS must have done its work exactly once.
+    import sqlite3
+
+    cstate = {"k": -1, "n": 0}
+
+    def commit(conn):  # type: ignore[no-untyped-def]   (the wrapper delegates `commit` to the sqlite3 connection through __getattr__)
+        cstate["n"] += 1
+        if cstate["n"] == cstate["k"]:
+            raise sqlite3.OperationalError("database is locked")
+        return conn._conn.commit()
+
+    SQLiteConnection.commit = commit  # type: ignore[method-assign]
+    try:
+        for opname, op, adds in (("route_invocation", lambda: b.route_invocation("new"), ["new"]), ("route_invocations", lambda: b.route_invocations(["n1", "n2", "n3"]), ["n1", "n2", "n3"]),
+                                 ("retrieve_invocation", lambda: b.retrieve_invocation(), None)):
+            for k in range(1, 6):
+                cstate["k"] = -1
+                b.purge()
+                b.route_invocations(["a", "b", "c"])
+                cstate.update(k=k, n=0)
+                raised, ret = None, None
+                try:
+                    ret = op()
+                except BaseException as e:  # noqa: BLE001
+                    raised = f"{type(e).__name__}: {e}"
+                ncommits = cstate["n"]
+                cstate["k"] = -1
+                after = contents()
+                ctx.count()
+                if ncommits < k:
+                    break
+                ctx.distinct(("commit-refused", opname, k, bool(raised)))
+                if adds is not None:
+                    prefixes = [["a", "b", "c"] + adds[:j] for j in range(len(adds) + 1)]
+                    ok = (after in prefixes[:-1] or (after == prefixes[-1] and len(adds) > 1)) if raised else after == prefixes[-1]
+                else:
+                    ok = after == ["a", "b", "c"] if raised else (ret == "a" and after == ["b", "c"])
+                if not ok:
+                    ctx.report(f"sqlite:commit-refused-{opname}",
+                               f"[sqlite] COMMIT number {k} of {opname}() is refused once with 'database is locked'; the call {'raised ' + raised if raised else 'returned ' + repr(ret)} and the queue "
+                               f"went from ['a','b','c'] to {after}: {'a message is queued more than once / out of nowhere' if len(after) > 3 else 'a message was consumed without being delivered'}",
+                               {"kind": "commit-refused", "backend": "sqlite", "operation": opname, "commit": k})
+    finally:
+        del SQLiteConnection.commit
 
 
 def _run_keep(c: Conc, init, progs, chooser):
